@@ -1,6 +1,6 @@
 """Core machinery: building the harness, running TLC (model checking and trace validation),
 caching, known findings, evidence, exit codes."""
-import os, sys, json, re, time, hashlib, subprocess, shutil, signal, glob
+import re, os, sys, json, re, time, hashlib, subprocess, shutil, signal, glob
 from concurrent.futures import ThreadPoolExecutor
 
 VERIF = os.path.dirname(os.path.dirname(os.path.dirname(os.path.abspath(__file__))))
@@ -218,12 +218,24 @@ def tlc_trace_one(module, trace_path, timeout):
         raise ToolError(f"TLC trace validation timed out on {trace_path}")
     shutil.rmtree(d, ignore_errors=True)
     out = r.stdout
+    illtyped = None
     if "Model checking completed. No error has been found." not in out:
         lp = os.path.join(WORK, f"trace-fail-{os.path.basename(trace_path)}.log")
         open(lp, "w").write(out)
         errs = [l for l in out.splitlines() if "Error" in l or "rror:" in l][:6]
-        raise ToolError(f"trace validation of {trace_path} with {module} failed to run to completion: {errs} (log {lp})")
+        # An event whose recorded result has a different *form* than the specification expects (e.g. another enum variant
+        # with a differently typed payload) makes TLC's equality throw while judging that event. That is a disagreement
+        # of the implementation with the specification about that event, not a tool failure: report it at the line TLC
+        # had reached (the rest of this shard stays unexamined). Anything else that stops TLC remains a tool error.
+        m1 = re.search(r"Attempted to (check equality of|compare) [^\n]*(\n[^\n]*){0,3}", out)
+        ls = re.findall(r"^/?\\?\s*l = (\d+)\s*$", out, flags=re.M) or re.findall(r"\bl = (\d+)", out)
+        if m1 and ls:
+            illtyped = (int(ls[-1]), {"bad": ["crash", "illtyped"], "want": "TLC could not evaluate the judgment of this event: " + " ".join(m1.group(0).split())[:300]})
+        else:
+            raise ToolError(f"trace validation of {trace_path} with {module} failed to run to completion: {errs} (log {lp})")
     mis = []
+    if illtyped:
+        mis.append(illtyped)
     for l in out.splitlines():
         m = _MIS.match(l.strip())
         if m:
